@@ -1673,6 +1673,7 @@ def run(tier, seed, drv, prop=None, n=None):
         directed_search(res, drv)
     if prop == 'C02':
         nonce_variety(res)
+        unusable_secret(res)
     res.assumptions += [
         'asyncio selector-transport contract as implemented by harness FakeTransport (close idempotent and immediate for is_closing; no data_received after close or while reading is paused; pause/resume_reading no-ops on a closing transport; write after close accepted; exception escaping data_received force-closes that transport only; exceptions in connection_lost / future callbacks go to the loop exception handler)',
         'credential rows carry str secret/owner and lists of str channels; a store answers all look-ups synchronously or all asynchronously within one run',
@@ -1762,8 +1763,93 @@ def nonce_variety(res):
         asyncio.set_event_loop(None)
 
 
+def unusable_secret(res):
+    """C02, store rows WITHOUT a usable secret (a NULL column in sqlite, `null` / a number / a list in a hand-edited JSON
+    file reach the broker as they are): no digest equals SHA1(nonce || secret) for such a row, so nothing a connection
+    presents for that identity may authenticate it or be acted on.  How the broker gets rid of the connection (OP_ERROR
+    and close, or the transport aborted because the handler raised) is not judged here.  Monitor only."""
+    import hashlib
+    loop = VirtualLoop()
+    asyncio.set_event_loop(loop)
+    try:
+        from hpfeeds.broker.auth.memory import Authenticator
+        for mod in (BC, BS):
+            cur = getattr(mod, 'os', None)
+            if isinstance(cur, UrandomShim):
+                mod.os = cur._real
+
+        class _T(object):
+            def __init__(self, port):
+                self.port, self.w, self.closing = port, [], False
+
+            def write(self, b):
+                self.w.append(bytes(b))
+
+            def get_extra_info(self, name, default=None):
+                return ('127.0.0.1', self.port) if name == 'peername' else default
+
+            def close(self):
+                self.closing = True
+
+            abort = close
+
+            def is_closing(self):
+                return self.closing
+
+            def pause_reading(self):
+                pass
+
+            def resume_reading(self):
+                pass
+
+            def set_write_buffer_limits(self, *a, **k):
+                pass
+
+            def get_write_buffer_size(self):
+                return 0
+
+        def nonce_of(t):
+            fr = parse_one(t.w[0]) if t.w else None
+            return fr[1][1 + fr[1][0]:] if fr and fr[0] == P.OP_INFO else b''
+
+        for secret in (None, 12345, ['x'], {}, 0):
+            for dk in ('empty', 'sha1-nonce', 'sha1-nonce-repr', 'zeros'):
+                PROM.reset()
+                creds = {'sensor': {'secret': secret, 'owner': 'o', 'pubchans': ['c1'], 'subchans': ['c1']},
+                         'watch': {'secret': 'w', 'owner': 'o', 'pubchans': ['c1'], 'subchans': ['c1']}}
+                srv = BS.Server(Authenticator(creds), name='hp')
+                w, wt = BC.Connection(srv), _T(41000)
+                w.connection_made(wt)
+                w.data_received(P.msgauth(nonce_of(wt), 'watch', 'w') + P.msgsubscribe('watch', 'c1'))
+                v, vt = BC.Connection(srv), _T(41001)
+                v.connection_made(vt)
+                n_ = nonce_of(vt)
+                digest = {'empty': b'', 'sha1-nonce': hashlib.sha1(n_).digest(),
+                          'sha1-nonce-repr': hashlib.sha1(n_ + str(secret).encode()).digest(), 'zeros': bytes(20)}[dk]
+                before = len(wt.w)
+                try:
+                    v.data_received(P.msghdr(P.OP_AUTH, P.strpack8('sensor') + digest) + P.msgsubscribe('sensor', 'c1') +
+                                    P.msgpublish('sensor', 'c1', b'forged'))
+                except Exception:
+                    vt.closing = True          # asyncio aborts a transport whose data_received raised
+                res.evaluations += 1
+                res.note('unusable-secret.%s' % type(secret).__name__)
+                script = {'section': 'unusable-secret', 'secret': repr(secret), 'digest': dk}
+                got = [parse_one(b) for b in wt.w[before:]]
+                if v.ak is not None:
+                    res.violation('C02', 'authenticated-without-secret', 'identity %r whose stored secret is %r (unusable) was authenticated by a %s digest' % ('sensor', secret, dk), script)
+                elif any(f and f[0] == P.OP_PUBLISH for f in got) or any(m is v for m in srv.subscriptions.get('c1', [])):
+                    res.violation('C02', 'acted-before-auth', 'frames behind an OP_AUTH for an identity without a usable secret (%r, %s digest) were acted on' % (secret, dk), script)
+    finally:
+        loop.close()
+        asyncio.set_event_loop(None)
+
+
 def replay(script, drv):
     res = Result('broker')
+    if script.get('section') == 'unusable-secret':
+        unusable_secret(res)
+        return res
     if script.get('section') == 'nonce-variety':
         nonce_variety(res)
         return res
